@@ -121,6 +121,14 @@ def _classify(run, case, impl, model):
         return "%s/impl=null/spec=empty-struct-at-word-0" % op
     if a[:1] == "T" and b[:1] == "T" or a[:1] == "X" and b[:1] == "X":
         x, y = _tree_diff(a[1:], b[1:])
+        if x == "err" and y == "complist":
+            # the spec's node at the first difference: M<count>:<dsz>:<pc>[
+            k = 0
+            while k < len(a) - 1 and k < len(b) - 1 and a[1 + k] == b[1 + k]:
+                k += 1
+            mm = _re.match(r"M(\d+):0:0\[", b[1 + k:])
+            if mm and int(mm.group(1)) >= 1 << 29:
+                return "%s/tree/impl=err/spec=complist-count-ge-2^29" % op
         return "%s/tree/impl=%s/spec=%s" % (op, x, y)
     return "%s/impl=%s/spec=%s" % (op, _shape(a), _shape(b))
 
